@@ -271,6 +271,48 @@ Definition ns_del (v : val) (k : str) : H unit :=
   | _ => hfail
   end.
 
+(* ---- Namespace.__setitem__ with a possibly dotted key (_namespace.py _parse_key / _create_nested_namespace /
+   __setitem__): walk down while the value under the next key component is a Namespace or a dict; anything else
+   there (absent, None, a scalar, a list) is REPLACED by a fresh {} (below a dict) / Namespace() (below a Namespace);
+   the leaf is set as dict item or attribute of the container reached. *)
+Fixpoint split_dot (k : str) : option (str * str) :=
+  match k with
+  | [] => None
+  | c :: r => if N.eqb c 46 then Some ([], r)
+              else match split_dot r with Some (a, b) => Some (c :: a, b) | None => None end
+  end.
+Definition set_item (v : val) (k : str) (y : val) : H unit :=
+  match v with
+  | VRef l => c <- hread v ;;
+              match c with
+              | CNs kvs => hwrite l (CNs (aset k y kvs))
+              | CDict kvs => hwrite l (CDict (aset k y kvs))
+              | CList _ => hfail
+              end
+  | _ => hfail
+  end.
+Definition is_map_cell (c : cell) : bool := match c with CList _ => false | _ => true end.
+Definition empty_like (c : cell) : cell := match c with CDict _ => CDict [] | _ => CNs [] end.
+Definition cell_kvs (c : cell) : list (str * val) := match c with CList _ => [] | CDict kvs | CNs kvs => kvs end.
+Fixpoint set_path (fuel : nat) (v : val) (k : str) (y : val) : H unit :=
+  match fuel with
+  | O => hfuel
+  | S f =>
+      match split_dot k with
+      | None => set_item v k y
+      | Some (a, rest) =>
+          c <- hread v ;;
+          if negb (is_map_cell c) then hfail
+          else
+            let fresh_child := (n <- halloc (empty_like c) ;; set_item v a n ;;; set_path f n rest y) in
+            match aget a (cell_kvs c) with
+            | Some (VRef l') => c' <- hread (VRef l') ;;
+                                if is_map_cell c' then set_path f (VRef l') rest y else fresh_child
+            | _ => fresh_child
+            end
+      end
+  end.
+
 (* ================================================================================================
    Parsers
    ============================================================================================== *)
@@ -381,13 +423,22 @@ Definition apply_actions (fx : bool) (p : parser) (only_str : bool) (cfg : val) 
                end
            end) kvs.
 
-(* ---- get_defaults (_core.py:998-1052), no default config files:
-     cfg[action.dest] = recreate_branches(action.default)  per action; add_sub_defaults *)
+(* ---- get_defaults (_core.py), no default config files:
+     cfg = Namespace(); per action, in declaration order:  cfg[action.dest] = recreate_branches(action.default)
+   — the dest may be dotted (an argument declared BELOW a mapping-valued one: --opts {'mode': 'fast'} then --opts.level):
+   the child's default is then set into the COPY of the parent's default that already sits in cfg; add_sub_defaults *)
 Definition get_defaults (fx : bool) (p : parser) : M val :=
-  kvs <-- lift (hmap (fun d => y <- clone fx FUEL (d_dflt d) ;; hret (d_key d, y)) p) ;;
-  cfg <-- lift (halloc (CNs kvs)) ;;
+  cfg <-- lift (halloc (CNs [])) ;;
+  lift (hiter (fun d => y <- clone fx FUEL (d_dflt d) ;; set_path FUEL cfg (d_key d) y) p) ;;;;
   bracket G_SUBDEFAULTS 1 (apply_actions fx p true cfg) ;;;;
   ret cfg.
+
+(* a (wrong) get_defaults that assembles the namespace from the declared default objects themselves and copies once at
+   the end: the child's default is written into the parent's DECLARED mapping *)
+Definition get_defaults_late_copy (fx : bool) (p : parser) : M val :=
+  cfg <-- lift (halloc (CNs [])) ;;
+  lift (hiter (fun d => set_path FUEL cfg (d_key d) (d_dflt d)) p) ;;;;
+  lift (clone fx FUEL cfg).
 
 (* ---- merge_config (_core.py:1381-1397): clone both, update, (no append keys in the space) *)
 Definition merge_config (fx : bool) (cfg_from cfg_to : val) : M val :=
@@ -701,7 +752,13 @@ Definition aux_regions (entry : N) : list nat :=
   | 3%N => [G_ARGPARSE_NS; G_PARENT; G_LENIENT; G_PATHDIR; G_CWD; G_PARENT; G_LOADMODE]  (* parse_args([]) with default_config_files *)
   | 4%N => [G_ARGPARSE_NS; G_PARENT; G_LENIENT; G_PATHDIR; G_CWD]                        (* List[int] with enable_path: adapt_typehints under change_to_path_dir(list_path) *)
   | 6%N => [G_PARENT; G_DEFCACHE; G_PATHDIR; G_CWD; G_PARENT; G_LOADMODE]                (* print_help(file): as format_help *)
-  | _ => [G_PARENT; G_LENIENT]                                                            (* parse_env *)
+  | 5%N => [G_PARENT; G_LENIENT]                                                          (* parse_env *)
+  | 7%N => [G_SUBDEFAULTS; G_PARENT; G_LENIENT]                                           (* get_defaults *)
+  | 8%N => [G_ARGPARSE_NS; G_PARENT; G_LENIENT; G_LOADMODE]                               (* parse_args(argv), no files *)
+  | 9%N => [G_PARENT; G_LENIENT; G_SUBDEFAULTS; G_LOADMODE]                               (* parse_object *)
+  | 10%N => [G_LOADMODE; G_PARENT; G_LENIENT; G_SUBDEFAULTS]                              (* parse_string *)
+  | 11%N => [G_LOADMODE; G_PARENT; G_PATHDIR]                                             (* dump(cfg, skip_default=True) *)
+  | _ => [G_LOADMODE; G_PARENT; G_PATHDIR]                                                (* validate *)
   end.
 Definition aux_run (entry : N) (fails : bool) : M unit :=
   regions (aux_regions entry) (if fails then fail else ret tt).
